@@ -60,5 +60,10 @@ CHECKS = {
   "note": "Trusted: generator's read->group truth and vlib/oracles/weights.py; worlds without multi-mapped reads (keeps the recorded C02 finding out of this check).",
   "technique": "offline partition/consistency checker over grouped output tables vs generator truth",
  },
+ "C13": {
+  "text": "Every row of exon_counts.tsv / intron_counts.tsv and their grouped variants (aggregated per feature and group) from --count_exons runs is compared with an independent recount over the processed reads of read_assignments.tsv: a three-valued oracle gives an interval per count (degenerate for >99% of rows in these worlds), rows must name an annotated feature with the annotation's strands and sorted gene list, and grouped rows must partition the ungrouped ones; worlds contain overlapping, shared (both strands), contained and alternative terminal features; all delta presets and data types. Sampled worlds.",
+  "note": "Trusted: recount oracle in vlib/checks/c13.py (include exact unless two annotated features lie within delta of one read feature; exclude between the strict and the generous reading of the statement).",
+  "technique": "offline recount oracle over output tables vs reported read alignments (interval-valued reference model)",
+ },
 }
 NOT_APPLICABLE = {}
